@@ -300,6 +300,7 @@ func (e *Env) run() {
 			}
 		}
 	}
+	installSQLSeam()
 	verifhook.YieldHook = func(site string) {
 		if goid() != e.mainGID {
 			return
